@@ -19,11 +19,37 @@ class RNode(NodeMixin):
         return "str-of-%d" % self.label      # str(RenderTree) must use repr(node), never str(node)
 
 
-def build(t, parent, index):
-    n = RNode(t[0], parent)
+class RLen(RNode):
+    """container-like: falsy exactly while it has no children"""
+
+    def __len__(self):
+        return len(self.children)
+
+
+class RFalsy(RNode):
+    def __bool__(self):
+        return False
+
+
+class REq(RNode):
+    def __eq__(self, other):
+        return isinstance(other, RNode)
+
+    def __ne__(self, other):
+        return not isinstance(other, RNode)
+
+    def __hash__(self):
+        return 9
+
+
+RCLASSES = {"len": RLen, "falsy": RFalsy, "eq": REq}
+
+
+def build(t, parent, index, cls=RNode):
+    n = cls(t[0], parent)
     index[t[0]] = n
     for c in t[1]:
-        build(c, n, index)
+        build(c, n, index, cls)
     return n
 
 
@@ -54,7 +80,7 @@ def impl(case):
         return {"repr": repr(n), "path": None if kind != "node" else
                 r["sep"].join([""] + [str(x.name) for x in n.path])}
     index = {}
-    build(case["tree"], None, index)
+    build(case["tree"], None, index, RCLASSES.get(case.get("cls"), RNode))
     start = index[case["start"]]
     st = case["style"]
     if isinstance(st, str):
